@@ -182,7 +182,7 @@ func (SMRespEngine) Decode(raw json.RawMessage) (any, error) {
 	return c, err
 }
 
-var respAttacks = []string{"mac-short", "forged-short-mac", "naked-replay", "status-both", "splice-do87", "mac-tail", "bitflip", "bytesub", "truncate", "do_drop", "do_dup", "do_reorder", "do_nonminimal_len", "sw_mismatch",
+var respAttacks = []string{"naked-then-stale", "mac-short", "forged-short-mac", "naked-replay", "status-both", "splice-do87", "mac-tail", "bitflip", "bytesub", "truncate", "do_drop", "do_dup", "do_reorder", "do_nonminimal_len", "sw_mismatch",
 	"replay", "future", "cross_session", "plaintext", "bare_status", "random", "append", "wrong_ssc_rewrap", "strip_mac", "empty"}
 
 func (SMRespEngine) Gen(prop, tier string, seed uint64, yield func(c any) bool) {
@@ -285,6 +285,12 @@ func (SMRespEngine) Run(prop string, ci any) *core.Outcome {
 			c.Hist = 1
 		}
 	}
+	// naked-then-stale: the genuine response of exchange Hist is withheld behind a bare status word and delivered as the
+	// answer to the next command (which the adversary keeps from the chip)
+	stale := c.Attack == "naked-then-stale"
+	if stale {
+		naked = 1
+	}
 	last := c.Hist + naked // index of the exchange whose delivery is judged
 	script := make([]want, last+1)
 	for i := range script {
@@ -296,7 +302,7 @@ func (SMRespEngine) Run(prop string, ci any) *core.Outcome {
 	attackRng := core.NewRng(core.SubSeed(c.Seed, "attack"))
 	fired := false
 	if naked > 0 {
-		card.intercept = func(k int) bool { return k >= c.Hist }
+		card.intercept = func(k int) bool { return k >= c.Hist && !(stale && k == c.Hist) }
 	}
 	card.adversary = func(k int, genuine []byte) []byte {
 		if naked > 0 {
@@ -306,6 +312,9 @@ func (SMRespEngine) Run(prop string, ci any) *core.Outcome {
 				return []byte{byte(sw >> 8), byte(sw)}
 			case k == last:
 				fired = true
+				if stale {
+					return bytes.Clone(card.genuine[c.Hist])
+				}
 				return bytes.Clone(card.genuine[c.Hist-1])
 			}
 			return genuine
@@ -529,6 +538,9 @@ func (SMRespEngine) Run(prop string, ci any) *core.Outcome {
 			}
 		}
 		sig := fmt.Sprintf("%s/%s", c.Attack, c.Suite)
+		if stale {
+			sig = "naked-then-stale"
+		}
 		if pan != nil {
 			out.Violate("C03", "panic", sig, "panic at exchange %d: %v", k, pan)
 			out.Violate("C12", "panic-sm-decode", "sm.Decode", "panic: %v", pan)
